@@ -372,8 +372,8 @@ def _ctor_cases(n, index, count):
             if route == "detour":
                 continue
             labels = list(range(n))
-            for parent in ["<absent>", None] + labels + [{"bad": "int"}, {"bad": "zero"}, {"bad": "empty-str"}, {"bad": "false"}, {"bad": "empty-tuple"}]:
-                for children in [None, []] + [s for s in shapes.sequences(labels, min(n, 2)) if s] + [[{"bad": "str"}]]:
+            for parent in ["<absent>", None] + labels + [{"bad": "int"}, {"bad": "zero"}, {"bad": "empty-str"}, {"bad": "false"}, {"bad": "empty-tuple"}] + mut.LOOKALIKES:
+                for children in [None, []] + [s for s in shapes.sequences(labels, min(n, 2)) if s] + [[{"bad": "str"}], [{"bad": "class"}], [{"bad": "stub"}]]:
                     k += 1
                     if k % count != index:
                         continue
@@ -434,7 +434,7 @@ def _plain_only(cases, family, spec=None):
 def random_cases(draw):
     spec = draw(st.sampled_from(CLASS_SPECS))
     family = mut.family_of(spec)
-    case = draw(mut.history_strategy(max_nodes=7, max_steps=30, faults="none", invalid=(family == "NM"), class_specs=[spec]))
+    case = draw(mut.history_strategy(max_nodes=7, max_steps=30, faults="none", invalid=("look" if family == "NM" else False), class_specs=[spec]))
     case["steps"] = [s for s in case["steps"] if not (s["op"][0] == "children" and isinstance(s["op"][2], dict))] or [{"op": ["del", 0], "plan": {}}]
     return case
 
@@ -475,7 +475,7 @@ def run_task(task, acc):
         return acc.run_hypothesis(check_case, blind(), task["examples"], task["seed"])
     if task["engine"] == "enum":
         family = mut.family_of(task["spec"])
-        cases = mut.enum_fault_cases(task["spec"], task["n"], task["index"], task["count"], invalid=True, maxlen=task["maxlen"], routes=task.get("routes"))
+        cases = mut.enum_fault_cases(task["spec"], task["n"], task["index"], task["count"], invalid="look" if mut.family_of(task["spec"]) == "NM" else True, maxlen=task["maxlen"], routes=task.get("routes"))
         acc.run_enum(check_case, _plain_only(cases, family, task["spec"] if isinstance(task["spec"], str) else None))
     elif task["engine"] == "ctor":
         acc.run_enum(check_case, _ctor_cases(task["n"], task["index"], task["count"]))
